@@ -54,7 +54,7 @@ def digest(r):
     return h.hexdigest()
 
 
-def run_cfg(cfg, procs=1, mp=False, delays=None):
+def run_cfg(cfg, procs=1, mp=False, delays=None, stall=None):
     from fast_ticc import main_loop
     if mp:
         os.environ["CUPCAKE_ENABLE_MULTIPROCESSING"] = "1"
@@ -71,7 +71,7 @@ def run_cfg(cfg, procs=1, mp=False, delays=None):
         main_loop._init_task_pool = init
         return [lambda: setattr(main_loop, "_init_task_pool", cur)]
     try:
-        return e2e.traced_run(dict(cfg, procs=procs), extra_patches=patches)
+        return e2e.traced_run(dict(cfg, procs=procs, **({"stall": stall} if stall else {})), extra_patches=patches)
     finally:
         os.environ.pop("CUPCAKE_ENABLE_MULTIPROCESSING", None)
 
@@ -161,10 +161,15 @@ def run(ctx):
                 delays = [0.02 * (K - perm.index(k)) for k in range(K)]      # later tasks may finish first
                 variants.append(("procs=%d mp=on delays=%s" % (K, delays), dict(procs=K, mp=True, delays=delays)))
                 variants.append(("procs=2 mp=on delays=%s" % (delays,), dict(procs=2, mp=True, delays=delays)))
+            # a worker that is slow to answer (e2e.StallPool): one task of every round still looks unfinished the first n times the
+            # parent inquires - ready() False, wait(t) / get(t) time out - whatever way the parent waits, the result must not change
+            for n_, (procs_, mp_) in ((1, (1, False)), (3, (1, False)), (2, (2, True))):
+                variants.append(("a slow worker: one task per round unfinished for the first %d inquiries, procs=%d mp=%s" % (n_, procs_, "on" if mp_ else "off"),
+                                 dict(procs=procs_, mp=mp_, stall=(K, n_))))
             for name, kw in variants:
                 ctx.count("config")
                 hist["configs"] += 1
-                if "delays" in name or "mp=on" in name:
+                if "delays" in name or "mp=on" in name or "slow worker" in name:
                     ctx.mark_nontrivial((cfgi, name))
                 r = run_cfg(cfg, **kw)
                 if digest(r) != dref:
